@@ -9,6 +9,7 @@ import (
 	"go.pennock.tech/tabular/json"
 	"go.pennock.tech/tabular/markdown"
 	"go.pennock.tech/tabular/texttable"
+	"go.pennock.tech/tabular/texttable/decoration"
 )
 
 func vfFill(t tabular.Table, a, b string) {
@@ -279,4 +280,81 @@ func vfKeep(t tabular.Table, f int) RenderTable {
 		return texttable.Wrap(t)
 	}
 	return html.Wrap(t)
+}
+
+type vfPlainWriter struct{ got []byte }
+
+func (w *vfPlainWriter) Write(p []byte) (int, error) {
+	w.got = append(w.got, p...)
+	return len(p), nil
+}
+
+// VerifC10_shapes: for tables of every small shape (rows without cells, short and over-long rows,
+// separators first or last, with and without headers) the ways of rendering one format agree byte for
+// byte: the package function, a wrapper's Render, RenderTo into a bytes.Buffer and into a plain
+// io.Writer, and auto by style name.
+func VerifC10_shapes() {
+	t := tabular.New()
+	if vfChoice("hdr", 2) == 1 {
+		t.AddHeaders("h1", "h2")
+	}
+	nrows := 1 + vfChoice("nrows", 2+vfTier())
+	for r := 0; r < nrows; r++ {
+		k := vfChoice(vfName("row", r), 5) // 0: separator, else k-1 cells
+		if k == 0 {
+			t.AddSeparator()
+			continue
+		}
+		items := make([]interface{}, k-1)
+		for i := range items {
+			items[i] = "c"
+		}
+		t.AddRowItems(items...)
+	}
+	format := vfChoice("format", 5)
+	out, err := vfRenderAs(t, format)
+	viaWrap, errWrap := vfKeep(t, format).Render()
+	var buf bytes.Buffer
+	errBuf := vfKeep(t, format).RenderTo(&buf)
+	pw := &vfPlainWriter{}
+	errPlain := vfKeep(t, format).RenderTo(pw)
+	style := []string{"csv", "json", "markdown", "texttable", "html"}[format]
+	viaAuto, errAuto := Render(t, style)
+	pa := &vfPlainWriter{}
+	errAutoTo := RenderTo(t, pa, style)
+	vfObserveStr("out", out)
+	vfObserveBool("err", err != nil)
+	if err != nil {
+		vfAssert(out == "", "no-text-on-error")
+		vfAssert(vfAnd(errWrap != nil, vfAnd(errBuf != nil, vfAnd(errPlain != nil, vfAnd(errAuto != nil, errAutoTo != nil)))), "all-paths-refuse-alike")
+		return
+	}
+	vfAssert(vfAnd(errWrap == nil, viaWrap == out), "wrapper-method-agrees")
+	vfAssert(vfAnd(errBuf == nil, buf.String() == out), "renderto-writes-what-render-returns")
+	vfAssert(vfAnd(errPlain == nil, string(pw.got) == out), "renderto-writes-what-render-returns")
+	vfAssert(vfAnd(errAuto == nil, viaAuto == out), "auto-agrees")
+	vfAssert(vfAnd(errAutoTo == nil, string(pa.got) == out), "auto-agrees")
+}
+
+// VerifC10_styles: auto by style string agrees with configuring a text table by hand, also for
+// application-registered decorations whose names extend one another with a dot.
+func VerifC10_styles() {
+	base := decoration.ASCIIBoxSimple()
+	v2 := decoration.ASCIIBoxSimple()
+	v2.TopLeft, v2.TopRight = "/", "\\"
+	decoration.RegisterDecorationName("vfbox", base)
+	decoration.RegisterDecorationName("vfbox.v2", v2)
+	styles := []string{"vfbox", "vfbox.v2", "texttable.vfbox.v2", "vfbox.tuning", "texttable.vfbox.tuning", "utf8-light.x", "texttable.vfbox"}
+	names := []string{"vfbox", "vfbox.v2", "vfbox.v2", "vfbox", "vfbox", "utf8-light", "vfbox"}
+	k := vfChoice("style", len(styles))
+	t := tabular.New()
+	t.AddHeaders("h1", "h2")
+	t.AddRowItems(vfString("a", 1, vfTXT), "x")
+	viaAuto, errAuto := Render(t, styles[k])
+	tt := texttable.Wrap(t)
+	_, errSet := tt.SetDecorationNamed(names[k])
+	want, errWant := tt.Render()
+	vfAssert(vfAnd(errSet == nil, errWant == nil), "render-ok")
+	vfAssert(vfAnd(errAuto == nil, viaAuto == want), "auto-agrees")
+	vfObserveStr("out", viaAuto)
 }
